@@ -321,7 +321,8 @@ pub fn run_batch<S: Scenario>(
                     prelude.clear();
                 } else {
                     let mut k = 0;
-                    while k < prelude.len() {
+                    let t_red = Instant::now();
+                    while k < prelude.len() && t_red.elapsed().as_secs() < 90 {
                         let mut cand = prelude.clone();
                         cand.remove(k);
                         if fails(scn, &cand, &ops, v.check, &v.sig, false) {
